@@ -344,9 +344,15 @@ impl Check for C05 {
         }
         // a surface of more than 65536 pixels, and a chain 40 clips deep
         {
-            run.bound("large surface and long chain", "300x300: clip path / clip rect / clip path stacks (6 orders) x 3 probes; 6x5: chains of 40 alternating clip rects and paths".to_string());
-            run.par(7, |s, l| {
-                let (w, h, hist): (i32, i32, Vec<Op>) = if s < 6 {
+            run.bound("large surface and long chain", "300x300: clip path / clip rect / clip path stacks (6 orders) x 3 probes; 6x5: chains of 40 alternating clip rects and paths; 1100x2, 2100x2, 8300x2 strips under a clip path near one end".to_string());
+            run.par(11, |s, l| {
+                let (w, h, hist): (i32, i32, Vec<Op>) = if s >= 7 {
+                    // strips longer than 1024 / 2048 / 8192 pixels under a clip path that covers only
+                    // a few columns near one end (coverage must be looked up at the pixel's own column)
+                    let len = [1100, 2100, 8300, 1100][s - 7];
+                    let x0 = if s == 10 { 1050.0 } else { 0.25 };
+                    (len, 2, vec![Op::PushClip(PathSpec::poly(&[(x0, 0.0), (x0 + 2.5, 0.25), (x0 + 1.0, 2.0)]))])
+                } else if s < 6 {
                     let a = Op::PushClip(PathSpec::poly(&[(3.5, 1.0), (298.0, 40.25), (250.5, 299.0), (10.25, 200.0)]));
                     let b = Op::PushClipRect(20, 31, 280, 270);
                     let c = Op::PushClip(PathSpec { evenodd: true, ops: [PathSpec::rect(10.5, 10.25, 280.0, 270.5).ops, PathSpec::rect(100.25, 90.5, 80.0, 120.75).ops].concat() });
@@ -362,7 +368,7 @@ impl Check for C05 {
                     (6, 5, v)
                 };
                 let all = probes(w, h);
-                for p in [&all[1], &all[6], &all[3]] {
+                for p in [&all[1], &all[6], &all[3], &all[0]] {
                     let mut ops = hist.clone();
                     ops.extend(p.iter().cloned());
                     l.states += 1;
